@@ -268,6 +268,34 @@ def main():
     req = json.load(sys.stdin)
     signal.signal(signal.SIGALRM, _alarm)
     ad = Adapter(req['kind'], req['universe'], req['gidx'])
+    if req.get('mode') == 'badindex':
+        # single-element operations given an index the backing sequence rejects (None, a string, a float, a huge
+        # int): they must raise and leave the container - list, length, membership, internals - unchanged
+        BAD = {'none': None, 'str': 'x', 'float': 1.5, 'huge': 2 ** 70}
+        res = []
+        for init, opname, bad, val in req['cases']:
+            try:
+                c = ad.cls([ad.val(x) for x in init])
+                before = ad.snapshot(c)
+                exn = None
+                try:
+                    if opname == 'insert':
+                        c.insert(BAD[bad], ad.val(val))
+                    elif opname == 'setidx':
+                        c[BAD[bad]] = ad.val(val)
+                    elif opname == 'delidx':
+                        del c[BAD[bad]]
+                    elif opname == 'pop':
+                        c.pop(BAD[bad])
+                    elif opname == 'wedge':
+                        c.wedge(ad.val(val), ad.val(init[0]), BAD[bad])
+                except Exception as e:  # noqa
+                    exn = type(e).__name__
+                res.append([exn, ad.snapshot(c) == before, bool(ad.rep_ok(c))])
+            except Exception as e:  # noqa
+                res.append(['setup:' + type(e).__name__, False, False])
+        json.dump(res, sys.stdout, separators=(',', ':'))
+        return
     if req.get('mode') == 'keysort':
         # sort(key=..., reverse=...) against the plain list's own sort (stable, ties keep their order)
         KEYS = {'mod2': lambda n: n % 2, 'const': lambda n: 0, 'div2': lambda n: n // 2, 'neg': lambda n: -n}
